@@ -36,11 +36,12 @@ impl EditState {
             }
             crate::FontMode::Unlimited | crate::FontMode::FixedSize => {
                 let new_font = BitFont::from_ansi_font_page(page)?;
-                if let Some(font) = self.get_buffer().get_font(0) {
-                    let op = super::undo_operations::SetFont::new(self.caret.get_font_page(), font.clone(), new_font);
+                let page = self.caret.get_font_page();
+                if let Some(font) = self.get_buffer().get_font(page) {
+                    let op = super::undo_operations::SetFont::new(page, font.clone(), new_font);
                     self.push_undo_action(Box::new(op))
                 } else {
-                    Err(anyhow::anyhow!("No font found in buffer."))
+                    self.push_undo_action(Box::new(super::undo_operations::AddFont::new(page, page, new_font)))
                 }
             }
         }
@@ -59,11 +60,12 @@ impl EditState {
             }
             crate::FontMode::Unlimited | crate::FontMode::FixedSize => {
                 let new_font = BitFont::from_sauce_name(name)?;
-                if let Some(font) = self.get_buffer().get_font(0) {
-                    let op = super::undo_operations::SetFont::new(self.caret.get_font_page(), font.clone(), new_font);
+                let page = self.caret.get_font_page();
+                if let Some(font) = self.get_buffer().get_font(page) {
+                    let op = super::undo_operations::SetFont::new(page, font.clone(), new_font);
                     self.push_undo_action(Box::new(op))
                 } else {
-                    Err(anyhow::anyhow!("No font found in buffer."))
+                    self.push_undo_action(Box::new(super::undo_operations::AddFont::new(page, page, new_font)))
                 }
             }
         }
@@ -99,11 +101,12 @@ impl EditState {
                 }
             }
             crate::FontMode::Unlimited | crate::FontMode::FixedSize => {
-                if let Some(font) = self.get_buffer().get_font(0) {
-                    let op = super::undo_operations::SetFont::new(self.caret.get_font_page(), font.clone(), new_font);
+                let page = self.caret.get_font_page();
+                if let Some(font) = self.get_buffer().get_font(page) {
+                    let op = super::undo_operations::SetFont::new(page, font.clone(), new_font);
                     self.push_undo_action(Box::new(op))
                 } else {
-                    Err(anyhow::anyhow!("No font found in buffer."))
+                    self.push_undo_action(Box::new(super::undo_operations::AddFont::new(page, page, new_font)))
                 }
             }
         }
